@@ -417,3 +417,34 @@ func TestC07Conc(t *testing.T) {
 		},
 	})
 }
+
+func TestC11Conc(t *testing.T) {
+	runSchedTest(t, schedSpec{
+		prop: "C11", test: "TestC11Conc",
+		rule: "a generated store and 2-3 concurrent commands, at least one of them `plan` (the others: plan, new task, set, sequence, claim, compact), parked / resumed by the controller or free-running; oracle: linearizability against the reference model - every acknowledged plan is present whole (one epic, its tasks in order, exactly its edges), nothing that existed before or was acknowledged meanwhile is altered or lost; non-trivial = executions overlap and at least one park landed (or free-running)",
+		minN: 2, maxN: 3, setup: setupProfile,
+		genOps: func(t *rapid.T, w *World, pre *Snapshot, n int) []Op {
+			ops := genConcOps(t, w, pre, map[string]int{"plan": 30, "new_task": 20, "set": 20, "sequence": 10, "claim": 8, "compact": 8, "prune_yes": 4}, n)
+			k := uni(t, n, "plan.slot")
+			ops[k] = Op{N: 1000 + k, Kind: "plan", Plan: genRichPlan(t, w)}
+			for i := range ops {
+				if ops[i].Kind == "plan" && ops[i].Plan != nil && len(ops[i].Plan.Tasks) > 6 {
+					ops[i].Plan.Tasks = ops[i].Plan.Tasks[:6]
+					for j := range ops[i].Plan.Tasks {
+						var keep []string
+						for _, a := range ops[i].Plan.Tasks[j].After {
+							for _, t2 := range ops[i].Plan.Tasks {
+								if *t2.Title == a {
+									keep = append(keep, a)
+									break
+								}
+							}
+						}
+						ops[i].Plan.Tasks[j].After = keep
+					}
+				}
+			}
+			return ops
+		},
+	})
+}
